@@ -44,3 +44,5 @@ pub assume_specification[ usize::is_power_of_two ](a: usize) -> (r: bool)
     ensures r == (a > 0 && a & ((a - 1) as usize) == 0);
 pub assume_specification[ usize::overflowing_add ](a: usize, b: usize) -> (r: (usize, bool))
     ensures r.0 as int == (a + b) % (usize::MAX as int + 1), r.1 == (a + b > usize::MAX);
+pub assume_specification<T>[ Option::<T>::replace ](o: &mut Option<T>, value: T) -> (r: Option<T>)
+    ensures r == *old(o), *final(o) == Some(value);
